@@ -1,6 +1,6 @@
 #!/bin/bash
 # usage: try_seed.sh <patch.diff> <tier> <PROP>... : apply the change to /repo, run the checks, undo it.
-PATCH="$1"; TIER="$2"; shift 2
+PATCH="$(readlink -f "$1")"; TIER="$2"; shift 2
 cd /repo || exit 2
 if [ -n "$(git status --porcelain --untracked-files=no)" ]; then echo "/repo is dirty"; exit 2; fi
 git apply "$PATCH" || { echo "patch does not apply"; exit 3; }
